@@ -20,6 +20,12 @@ func vxTwoStep(outA, outA2, outB string) *vxWF {
 		a = NewProc(wf, "a", "vcmd w:{o:o1}")
 		a.SetOut("o1", outA)
 	}
+	if vxGet("side") == 1 {
+		// an output declared only through SetOut: the command writes it under its plain
+		// name into its working directory (no placeholder in the pattern)
+		a.CommandPattern += " w:side.txt"
+		a.SetOut("side", "side.txt")
+	}
 	b := NewProc(wf, "b", "vcmd r:{i:in} w:{o:out}")
 	b.SetOut("out", outB)
 	b.In("in").From(a.Out("o1"))
